@@ -10,7 +10,11 @@ use std::panic::{AssertUnwindSafe, catch_unwind};
 
 pub fn lm_from_case(case: &Value) -> LinearModel {
     let den = case["den"].as_i64().unwrap_or(1) as f64;
-    let f = |v: &Value| v.as_i64().unwrap() as f64 / den;
+    // a number is an integer over `den`, or {"f": float} for magnitudes beyond that
+    let f = |v: &Value| match v.get("f") {
+        Some(x) => x.as_f64().unwrap(),
+        None => v.as_i64().unwrap() as f64 / den,
+    };
     let mut names = vec![];
     let mut domain: IndexMap<String, DomainVariable> = IndexMap::new();
     for v in case["vars"].as_array().unwrap() {
@@ -204,4 +208,64 @@ pub fn solve_events(case: &Value, entries: &[&str], out: &mut Vec<Value>) {
         }
         out.push(ev);
     }
+}
+
+/// A number for identity comparison in TLA+: sign and the bit pattern of the
+/// magnitude in three 22-bit chunks (no arithmetic is done on it there).
+pub fn numrec(x: f64) -> Value {
+    let s = if x.is_nan() { 2 } else if x > 0.0 { 1 } else if x < 0.0 { -1 } else { 0 };
+    let bits = x.abs().to_bits();
+    json!({"s": s, "m": [(bits >> 44) as i64, ((bits >> 22) & 0x3f_ffff) as i64, (bits & 0x3f_ffff) as i64]})
+}
+
+/// C17: export to CPLEX-LP text; the text is split on white space, numeric
+/// tokens are parsed with the standard float parser, a trailing ':' marks a label.
+pub fn lpexport_event(case: &Value) -> Value {
+    let lm = lm_from_case(case);
+    let mut ev = json!({"id": case["id"], "sense": case["sense"]});
+    ev["vars"] = lm
+        .variables()
+        .iter()
+        .map(|n| {
+            let t = lm.domain().get(n).unwrap().get_type();
+            let (k, lo, hi) = match t {
+                rooc::VariableType::Boolean => ("bool", 0.0, 1.0),
+                rooc::VariableType::IntegerRange(a, b) => ("int", *a as f64, *b as f64),
+                rooc::VariableType::Real(a, b) => ("real", *a, *b),
+                rooc::VariableType::NonNegativeReal(a, b) => ("nnreal", a.max(0.0), *b),
+            };
+            json!({"name": n, "kind": k, "lo": numrec(lo), "hi": numrec(hi)})
+        })
+        .collect();
+    ev["obj"] = lm.objective().iter().map(|x| numrec(*x)).collect();
+    ev["off"] = numrec(lm.objective_offset());
+    ev["rows"] = lm
+        .constraints()
+        .iter()
+        .map(|c| json!({"a": c.coefficients().iter().map(|x| numrec(*x)).collect::<Vec<_>>(), "b": numrec(c.rhs()),
+                        "cmp": cmp_name(c.constraint_type()), "name": c.name()}))
+        .collect();
+    let res = catch_unwind(AssertUnwindSafe(|| lm.to_lp_format()));
+    match res {
+        Err(_) => ev["out"] = json!("panic"),
+        Ok(text) => {
+            ev["out"] = json!("ok");
+            ev["text"] = json!(text);
+            ev["tokens"] = text
+                .split_whitespace()
+                .map(|t| {
+                    let (body, label) = match t.strip_suffix(':') {
+                        Some(b) if !b.is_empty() => (b, true),
+                        _ => (t, false),
+                    };
+                    let looks_numeric = body.chars().next().map(|c| c.is_ascii_digit() || c == '.' || ((c == '-' || c == '+') && body.len() > 1)).unwrap_or(false);
+                    match (looks_numeric && !label, body.parse::<f64>()) {
+                        (true, Ok(f)) => json!({"s": body, "num": true, "v": numrec(f), "label": false}),
+                        _ => json!({"s": body, "num": false, "v": numrec(0.0), "label": label}),
+                    }
+                })
+                .collect();
+        }
+    }
+    ev
 }
